@@ -363,7 +363,18 @@ def _close(ck: Check, repo: Repo, cls: Cls) -> None:
     for t in tries:
         src = ast.unparse(t)
         if has(src, 'self._state != AsyncState.DEFAULT') and "_wait" in src:
-            hs = [h for h in t.handlers if h.type is not None and "TimeoutError" in ast.unparse(h.type)]
+            # the handler must name the exception the *_wait methods raise (multiprocessing.TimeoutError is NOT the builtin TimeoutError) or one of its bases
+            raised = set()
+            for wn in ("reset_wait", "step_wait", "call_wait"):
+                wm = cls.methods.get(wn)
+                for r in (ast.walk(wm.node) if wm is not None else []):
+                    if isinstance(r, ast.Raise) and r.exc is not None:
+                        d = dotted(r.exc.func) if isinstance(r.exc, ast.Call) else dotted(r.exc)
+                        if "Timeout" in d:
+                            raised.add(d)
+            accepted = raised | {"Exception", "BaseException", "mp.ProcessError", "multiprocessing.ProcessError"}
+            hs = [h for h in t.handlers if h.type is not None and any(dotted(x) in accepted for x in (h.type.elts if isinstance(h.type, ast.Tuple) else [h.type]))]
+            ck.note("C13.5_timeout_raised_by_waits", sorted(raised))
             ok = bool(hs) and any(isinstance(s, ast.Assign) and dotted(s.targets[0]) == "terminate" and const_value(s.value) is True for s in hs[0].body)
             # the pending wait method: the local bound to getattr(self, f"..._wait") (or that getattr called in place)
             def is_wait_getattr(v: Optional[ast.AST]) -> bool:
@@ -431,6 +442,8 @@ def _close(ck: Check, repo: Repo, cls: Cls) -> None:
 _AV = "agilerl/vector/pz_async_vec_env.py"
 _PV = "agilerl/vector/pz_vec_env.py"
 VARIANTS = [
+    ("close-catches-builtin-timeout", _AV, "        except mp.TimeoutError:\n            terminate = True", "        except TimeoutError:\n            terminate = True", "fire", "C13.5"),
+    ("step-wait-stops-at-first-failed-worker", _AV, "            if success:\n                for agent in self.agents:\n                    rewards[agent].append(env_step_return[0][agent])", "            if not success:\n                break\n            if success:\n                for agent in self.agents:\n                    rewards[agent].append(env_step_return[0][agent])", "fire", "C13.3"),
     ("step-async-no-guard", _AV, "        self._assert_is_running()\n        if self._state != AsyncState.DEFAULT:\n            raise AlreadyPendingCallError(\n                f\"Calling `step_async` while",
      "        self._assert_is_running()\n        if False:\n            raise AlreadyPendingCallError(\n                f\"Calling `step_async` while", "fire", "C13.1"),
     ("step-async-wrong-family", _AV, "        self._state = AsyncState.WAITING_STEP\n", "        self._state = AsyncState.WAITING_CALL\n", "fire", "C13.1"),
@@ -487,4 +500,11 @@ def _success_flags(ck: Check, repo: Repo, cls: Cls) -> None:
             detail = f"argument derives from the received answers: {from_recv}; on every path after receiving: {on_all}"
         ck.ob("C13.3", m, recvs[0], ok, f"{name}: the success flags of the received answers are checked by _raise_if_errors (a failed worker's "
                                          "exception reaches the caller and its pipe is retired)", detail=detail)
+        # every worker's answer is received: the receive loop is not left early (an unread answer desynchronises the error count and the next call)
+        for lp in [x for x in ast.walk(m.node) if isinstance(x, ast.For) and any(r in list(ast.walk(x)) for r in recvs)]:
+            exits = [x for x in ast.walk(lp) if isinstance(x, (ast.Break, ast.Return))]
+            ck.ob("C13.3", m, exits[0] if exits else lp, not exits, f"{name}: the loop that receives the workers' answers reads every pipe (no break / return inside)",
+                  detail=f"`{type(exits[0]).__name__.lower()}` at line {exits[0].lineno}: the answers of the remaining workers stay in their pipes, fewer flags than workers reach "
+                         "_raise_if_errors (it then waits for errors that were never queued) and the next call reads stale answers" if exits else "",
+                  construct=f"{name}: receive loop reads every pipe")
     ck.floor("C13.3", n_sites, 4, "methods receiving worker answers (reset_wait, step_wait, call_wait, set_attr)")
